@@ -72,6 +72,9 @@ func genC18(t *rapid.T) *raceCase {
 	sc.FaultsC2S = genScript(t, "f_c2s", 60, delays)
 	sc.FaultsS2C = genScript(t, "f_s2c", 60, delays)
 	sc.DeadlineMs = 40*p*10 + 20000
+	// the hand-over of received packets to an application that is not there
+	// (receive buffer full) is one more place where the two loops meet
+	drawSlowReaders(t, sc, 2*p)
 	c := &raceCase{Sc: sc}
 	opGen := rapid.Custom(func(t *rapid.T) extraOp {
 		return extraOp{
